@@ -49,6 +49,8 @@ func c08AnchoredDoc(r *rand.Rand) string {
 		sb.WriteString("  - spec: *sp\n    v: 3\n")
 	}
 	fmt.Fprintf(&sb, "refs:\n  - *sp\n  - %s\n  - *defaults\n", sc())
+	fmt.Fprintf(&sb, "refsmap:\n  web: *defaults\n  db: *sp\n  plain: %s\n", sc())
+	fmt.Fprintf(&sb, "ents:\n  - key: a\n    value: %s\n  - key: b\n", sc())
 	fmt.Fprintf(&sb, "scalar: &s %s\nuse: *s\n", sc())
 	return sb.String()
 }
@@ -67,6 +69,10 @@ var c08AnchorPool = []string{
 	// serialisation inside the expression
 	`to_json`, `@json`, `.items | to_json`, `.service | @json`, `to_yaml`, `.service | to_yaml`, `to_props`, `.service | to_props`, `.items | @json`, `to_xml`,
 	`.refs | @json`, `.items[] | to_json`, `.use | to_json`, `tojson`, `.service | to_entries`, `.service | with_entries(.)`, `.service | keys`, `.service | length`,
+	// entries: values that are aliases, entries without a value
+	`.refsmap | with_entries({"key": .key, "value": .value.zz_missing})`, `.refsmap | with_entries(select(.value.zz_missing == null))`, `.refsmap | with_entries(.value |= .zz_missing)`,
+	`.refsmap | to_entries | map(.value.zz_missing)`, `.refsmap | with_entries(.value = (.value.a // .value.retries))`, `.refsmap | map_values_ro`, `.refsmap | with_entries(.)`,
+	`.ents | from_entries`, `[.ents[] | select(has("value"))] | from_entries`, `.ents | map(.value)`, `.ents | from_entries | keys`, `.service | with_entries(.value.zz_missing)`,
 	// traversal through aliases and merge keys
 	`.service.retries`, `.service.nested.deep`, `.service.inner.retries`, `.items[].spec.a`, `.items[2].v`, `.refs[0].b[0]`, `.service[]`, `.items[0][]`, `..`, `[..]`,
 	`.service | pick(["retries"])`, `.service | omit(["name"])`, `.items | map(.spec.b)`, `.items | map(select(.spec.a == 1))`, `.service | map_values_ro`,
@@ -130,6 +136,20 @@ func c08AnchorCase(w *mon.Worker, r *rand.Rand) mon.Result {
 		if aerr == nil && apan == nil && alt == base {
 			res.Verdict, res.FindingID = mon.Finding, "C08-merge-n-writes-through-alias"
 			return res
+		}
+		// both recorded deviations in one expression: with plain `*` what remains is exactly the read-traversal one
+		if aerr == nil && apan == nil && (tpl == 2 || tpl == 4) && subsequence(strings.Split(base, "\n"), strings.Split(alt, "\n")) {
+			bj, e1, _ := yqx.Eval(".", text, "yaml", "json")
+			aj, e2, _ := yqx.Eval(strings.ReplaceAll(expr, " *n ", " * "), text, "yaml", "json")
+			if e1 == nil && e2 == nil {
+				bv, e3 := ref.ParseJSONStream(bj)
+				av, e4 := ref.ParseJSONStream(aj)
+				if e3 == nil && e4 == nil && len(bv) == 1 && len(av) == 1 && onlyVivification(bv[0], av[0]) {
+					res.Verdict, res.FindingID = mon.Finding, "C08-merge-n-writes-through-alias"
+					res.Tags = append(res.Tags, "both_recorded_deviations")
+					return res
+				}
+			}
 		}
 	}
 	if onlyAdds && (tpl == 2 || tpl == 4) {
